@@ -58,7 +58,7 @@ POINTS = [((F(1, 2), F(5, 6)), (0, 0)), ((F(1, 6), F(1, 2)), (0, 0)), ((F(5, 6),
           ((F(1, 4), F(1, 4)), (-1, 1)), ((F(3, 4), F(3, 4)), (-1, 1))]    # main diagonal: owner is up-left
 
 
-def run(ctx, crate):
+def run(ctx, crate, tag=""):
     clause = "base-cell-lookup"
     b = ctx.anchor(crate, FN, clause)
     if b is None: return
@@ -166,13 +166,46 @@ def run(ctx, crate):
                 n_edge += 1
                 if got not in accept:
                     edge_bad.append({"cap": cap, "column": I, "where": what, "point": (float(X), float(Y)), "code": got, "acceptable": sorted(accept)})
-    ctx.report(clause, FN + ":polar-facet-edges", not edge_bad and n_edge >= 40,
+    ctx.report(clause, FN + ":polar-facet-edges" + tag, not edge_bad and n_edge >= 40,
                "%d keys on / next to the outer edges of the 8 polar facets and at the poles: the result is always one of the base cells meeting there" % n_edge if not edge_bad else
                "%d of %d: e.g. %s cap, column %d, %s, point %s: code returns %s, the base cells meeting there are %s (a position with lon = k*pi/2 in a polar cap gets a value that is not a base cell)" % (
                    len(edge_bad), n_edge, edge_bad[0]["cap"], edge_bad[0]["column"], edge_bad[0]["where"], edge_bad[0]["point"], edge_bad[0]["code"], edge_bad[0]["acceptable"]),
                at=b.span, kind="N", sample={"keys": n_edge, "mismatches": edge_bad[:4]})
-    ctx.report(clause, FN + ":table", not bad and n >= 24,
+    # ---- column 4: x = 8 exactly (a tiny negative x plus 8 rounds to 8.0): the same cells as column 0
+    wrap_bad = []; n_wrap = 0
+    for J0 in range(3):
+        for nw in (0, 1):
+            for se in (0, 1):
+                res = []
+                for I in (0, 4):
+                    e1 = Engine(crate); e1.subst = {col[0]: C('u8', I), row[0]: C('u8', J0)}
+                    r1 = e1.run(FN)
+                    cm = []
+                    def scan3(t, seen1):
+                        for x in walk(t):
+                            if x in seen1: continue
+                            seen1.add(x)
+                            if x[0] == 'op' and x[1] in ('le', 'ge', 'lt', 'gt') and x[2] == 'bool' and is_float_cmp(x) and x not in cm and mentions(x, px) and mentions(x, py): cm.append(x)
+                            if x[0] == 'phi':
+                                for o in e1.phi_ops.get(x, ()): scan3(o, seen1)
+                    s1 = set()
+                    if r1.returns: scan3(r1.ret, s1)
+                    for d, loc in e1.branches: scan3(d, s1)
+                    if len(cm) != 2: res.append("keys?"); continue
+                    # order the two tests by their reading at a point of the NW triangle (x' < y')
+                    env = {px: float(2 * (I % 4) + 2 * 0.2), py: float(2 * (J0 + 0.7) - 3)}
+                    v0 = feval(cm[0], env, e1)
+                    first, second = (cm[0], cm[1]) if v0 else (cm[1], cm[0])        # first = "in north-west"
+                    e = Engine(crate); e.subst = {col[0]: C('u8', I), row[0]: C('u8', J0), first: C('bool', nw), second: C('bool', se)}
+                    r = e.run(FN)
+                    res.append(r.ret[2] if r.returns and r.ret[0] == 'c' else ("panics" if not r.returns else show(r.ret)[:40]))
+                n_wrap += 1
+                if res[0] != res[1]: wrap_bad.append({"row": J0, "nw": nw, "se": se, "column0": res[0], "column4": res[1]})
+    ctx.report(clause, FN + ":x=8-is-x=0" + tag, not wrap_bad and n_wrap == 12,
+               "column 4 (x = 8.0, what a longitude of -1e-16 projects to) gives the cells of column 0 on all 12 keys, without panicking" if not wrap_bad else
+               "row %(row)s, tests (nw=%(nw)s, se=%(se)s): column 0 gives %(column0)s, column 4 (x = 8.0, e.g. lon = -1e-16) gives %(column4)s" % wrap_bad[0], at=b.span, kind="N", sample={"keys": n_wrap, "mismatches": wrap_bad[:3]})
+    ctx.report(clause, FN + ":table" + tag, not bad and n >= 24,
                "%d test points inside the projection image (%d of them ON a diagonal seam, owned by the cell whose S->E / S->W edge it is): the returned base cell is the model's" % (n, n_tie) if not bad else
                "%d of %d points wrong, e.g. column %s row %s point %s%s: code returns %s, the point belongs to base cell %s" % (len(bad), n, bad[0]["column"], bad[0]["row"], bad[0]["point"], " (on a seam)" if bad[0]["on_seam"] else "", bad[0]["code"], bad[0]["model"]),
                at=b.span, kind="N", sample={"points": n, "seam_points": n_tie, "mismatches": bad[:3]})
-    ctx.floor("base-cell-lookup-points", n, 24)
+    ctx.floor("base-cell-lookup-points" + tag, n, 24)
